@@ -835,6 +835,19 @@ def gen_bitmap(rng, tier):
         elif style == 3:
             toks.append(f"b.addr:0:{hx(rng.choice([100, 4096, 4097, 6000]))}")
             toks.append(f"addr:{hx(50)}:{hx(rng.choice([60, 4200, 8000]))}")
+        if h % 7 == 3:
+            # a multi-run RUNS container (only a deserialised one has several runs): runs that end and start inside
+            # the same 8-value group, end off a byte boundary, total above or below the 4096 switch
+            runs, pos = [], rng.choice([0, 3, 4090])
+            target = rng.choice([300, 4096, 4100, 9000])
+            while sum(l for _, l in runs) < target and len(runs) < 40 and pos < 65000:
+                ln = rng.choice([1, 2, 5, 9, 13, 100, 1000, 2047, 4096])
+                ln = min(ln, 65536 - pos)
+                runs.append((pos, ln))
+                pos += ln + rng.choice([1, 2, 3, 5, 7, 8, 9, 64, 1000])
+            toks = [("b." if rng.random() < 0.3 else "") + "druns:" + ",".join(f"{hx(a)}-{hx(b)}" for a, b in runs)]
+            if toks[0].startswith("b."):
+                toks.append("swap")
         for _ in range(n):
             c = rng.random()
             p = "b." if rng.random() < 0.25 else ""
